@@ -137,6 +137,27 @@ func (h *Helper) ObligeAt(at ssa.Instruction, text string, ok bool, detail strin
 	h.it.oblige(h.fn, at, "CTR", text, ok, func() string { return detail })
 }
 
+// ObligeEntry records a CTR obligation under the *entry* function of the analysis, named by its text alone:
+// for clauses about the entry's behaviour whose witness may sit in a closure or helper today and elsewhere
+// after a refactoring (the key of a known finding must not depend on that).
+func (h *Helper) ObligeEntry(text string, ok bool, detail string) {
+	f := h.f
+	for int(f) >= 0 && int(f) < len(h.it.finfo) && h.it.finfo[f].parent >= 0 && h.it.finfo[f].parent != f {
+		f = h.it.finfo[f].parent
+	}
+	fn := h.it.finfo[f].fn
+	if fn == nil || len(fn.Blocks) == 0 || len(fn.Blocks[0].Instrs) == 0 {
+		h.Oblige(text, ok, detail)
+		return
+	}
+	at := fn.Blocks[0].Instrs[0]
+	h.it.oblige(fn, at, "CTR", text, ok, func() string { return detail })
+	if o := h.it.obls[fmt.Sprintf("%p|%s|%s", at, "CTR", text)]; o != nil {
+		o.NoSrc = true
+		o.Pos = fn.Pos()
+	}
+}
+
 func (h *Helper) Depth() int { return h.it.finfo[h.f].depth }
 
 // Int returns the linear form of an integer value of the current frame.
